@@ -139,7 +139,7 @@ def alphabet(shape, ops):
             if name in ("stat", "fixed"):
                 out.append((fname, name, None))
             else:
-                for pname in (POINTS if ops is OPS_FULL else POINTS_RED):
+                for pname in (POINTS if ops is OPS_FULL or ops is OPS_CORE else POINTS_MIN if ops is OPS_MIN else POINTS_RED):
                     out.append((fname, name, pname))
     return out
 
@@ -228,11 +228,17 @@ def judge(shape, hist):
     return probs, label, canon
 
 
+OPS_CORE = ["oracle", "gradient", "value", "call", "stat", "fixed", "prox"]
+OPS_MIN = ["oracle", "stat", "prox"]
+POINTS_MIN = ["x0", "cancel", "last"]
+
+
 def _bounds(tier):
-    # list of (ops alphabet, depth)
+    # list of (name, ops alphabet, depth); the point alphabet goes with the ops alphabet (see alphabet())
     if tier == "quick":
         return [("full", OPS_FULL, 2), ("reduced", OPS_RED, 3)]
-    return [("full", OPS_FULL, 3), ("reduced", OPS_RED, 4)]
+    # thorough: everything of the quick tier, the 7 core calls to depth 3 on all 6 points, and a minimal alphabet to depth 4
+    return [("full", OPS_FULL, 2), ("reduced", OPS_RED, 3), ("core", OPS_CORE, 3), ("minimal", OPS_MIN, 4)]
 
 
 def shards(tier):
@@ -246,7 +252,7 @@ def shards(tier):
 
 
 def run_shard(shard, tier):
-    ops = OPS_FULL if shard["alphabet"] == "full" else OPS_RED
+    ops = {"full": OPS_FULL, "reduced": OPS_RED, "core": OPS_CORE, "minimal": OPS_MIN}[shard["alphabet"]]
     shape = shard["shape"]
     alpha = alphabet(shape, ops)
     first = alpha[shard["first"]]
